@@ -78,7 +78,11 @@ inductive MSpan where
 def clipSpan (L : Int) (sp : Int × Int) : Option (Int × Int) :=
   let mn := min sp.1 sp.2
   let mx := max sp.1 sp.2
-  if mn < 0 ∧ 0 < mx then some (if sp.1 < 0 then 0 else sp.1, if sp.2 < 0 then 0 else sp.2)
+  if mn < 0 ∧ 0 < mx then
+    -- `new[new < 0] = 0` then (since dea246735) `new[new > len(self)] = len(self)`
+    let a := if sp.1 < 0 then 0 else sp.1
+    let b := if sp.2 < 0 then 0 else sp.2
+    some (if a > L then L else a, if b > L then L else b)
   else if mn < L ∧ L < mx then some (if sp.1 > L then L else sp.1, if sp.2 > L then L else sp.2)
   else if sp.1 = sp.2 ∨ mn ≥ L ∨ mx ≤ 0 then none
   else some sp
